@@ -194,6 +194,8 @@ class NPProxy:
     def exp(self, x, *a, **k):
         if isinstance(x, (SNum, SComplex)):
             return x.exp()
+        if isinstance(x, _np.ndarray) and not isinstance(x, SymND) and x.dtype == object and not hasattr(x, "unit"):
+            x = SymND(x)                 # keep the claimed dtype so that a following .astype() is modelled
         return _np.exp(x, *a, **k)
 
     def sign(self, x, *a, **k):
